@@ -265,7 +265,8 @@ class CacheMonitor:
                 if shorthand == 'target':
                     ident = f'{mn}:{an}'
                 cls = rng.choice(['HardwareError', 'CommunicationFailed', 'RangeError', 'NoSuchErrorClass', 'InternalError', 'Disabled'])
-                text = rng.choice(['boom', 'x y', 'ä€', ''])
+                text = rng.choice(['boom', 'x y', 'ä€', '', 'boom', 'ConfigError: first line\nsecond line', 'HardwareError: a\n  b\nc',
+                                   'two\nlines', 'RangeError: single line', 'NoSuchName: x\ny'])
                 line = f'{action} {ident} {json.dumps([cls, text, qual])}'
                 script.append(('msg', (mn, iname), ('error', cls, text, t)))
                 kinds.add(action)
@@ -416,6 +417,13 @@ class CacheMonitor:
             want = self.make_secop_error(cls, text)
             if entry.readerror is None or type(entry.readerror) is not type(want) or str(entry.readerror) != str(want):
                 return 'readerror'
+            # independent of frappy's own rebuilding: the complete message the node reported survives (a leading
+            # '<error class>: ' may be turned into the class of the error)
+            import re
+            m_ = re.match(r'(\w+): ', text)
+            rest = text[m_.end():] if m_ else text
+            if rest not in str(entry.readerror) and text not in str(entry.readerror):
+                return 'readerror-text-incomplete'
             if entry.value is not None:
                 return 'value-with-error'
         if entry.timestamp is None or entry.timestamp > t_after + 1e-6:
